@@ -251,6 +251,44 @@ fn gen_top_forms(c: &mut Choices) -> Vec<TT> {
         .collect()
 }
 
+/// The location of a list ends one column after its last element for each enclosing level, not at
+/// its closing parenthesis; when that parenthesis stands on a later line, the end column lies a
+/// few columns past the end of the last element's line.  Excused only when the location's start is
+/// in bounds, its end line exists, and the end column exceeds that line by at most 10 columns.
+pub fn list_location_overshoot(v: &Viol) -> Option<&'static str> {
+    if !v.sig.contains("error-location-out-of-bounds") {
+        return None;
+    }
+    let text = v.case.get("text")?.as_str()?;
+    let loc = v.case.get("location")?;
+    // the location is stored either as an object or as its printed form "file(l):c-file(l2):c2"
+    let (l1, c1, l2, c2) = if let Some(o) = loc.as_object() {
+        let u = o.get("until")?.as_array()?;
+        (o.get("line")?.as_u64()?, o.get("col")?.as_u64()?, u.first()?.as_u64()?, u.get(1)?.as_u64()?)
+    } else {
+        let s = loc.as_str()?;
+        let nums: Vec<u64> = s.split(|ch: char| !ch.is_ascii_digit()).filter(|t| !t.is_empty()).filter_map(|t| t.parse().ok()).collect();
+        // "{'col': 5, 'file': .., 'line': 1, 'until': [4, 22]}" or "name(1):5-name(4):22"
+        if s.starts_with('{') {
+            if nums.len() < 4 { return None; }
+            (nums[1], nums[0], nums[2], nums[3])
+        } else {
+            if nums.len() < 4 { return None; }
+            (nums[nums.len() - 4], nums[nums.len() - 3], nums[nums.len() - 2], nums[nums.len() - 1])
+        }
+    };
+    let lines: Vec<&str> = text.split('\n').collect();
+    let len = |l: u64| lines.get(l as usize - 1).map(|x| x.len() as u64);
+    if l1 == 0 || l2 < l1 || c1 > len(l1)? + 1 {
+        return None;
+    }
+    let over = c2.checked_sub(len(l2)? + 1)?;
+    if (1..=10).contains(&over) && (l2 as usize) < lines.len() {
+        return Some("list-locations-end-after-their-last-element-not-at-the-closing-parenthesis");
+    }
+    None
+}
+
 fn errors_text(bytes: &[u8]) -> Option<(String, &'static str)> {
     let mut c = Choices::new(bytes);
     let corpus = shipped_corpus();
@@ -394,6 +432,13 @@ impl Prop for C15Prop {
             Err(v) => Verdict::Violation(Box::new(v)),
             Ok(_) => Verdict::Pass,
         })
+    }
+    fn sut_crash_is_violation(&self) -> bool {
+        // stack overflows / aborts of the compiler on mutated texts are C14's subject
+        false
+    }
+    fn known(&self, v: &Viol) -> Option<&'static str> {
+        list_location_overshoot(v)
     }
     fn case_timeout(&self) -> (u64, bool) {
         (15, false)
